@@ -48,6 +48,31 @@ def gen(rng, tier):
         hist = [first] + hist + [['rand', rng.choice(RND), rng.randrange(10**6)], first]
         yield {'trajs': trajs, 'lag': rng.choice([1, 2]), 'S': [present[0]], 'F': present[-2:], 'hist': hist,
                'tau': rng.choice([2, 3]), 'alpha': akind, 'dtype': rng.choice(['int32', 'int64'])}
+    for case in gen_junction(rng, tier):
+        yield case
+
+
+def _junction(rng):
+    # two trajectories over a forward cycle x>y>z>x (no backward step inside); the first ends in x, the second
+    # starts in z, so x>z exists only ACROSS the boundary: a sampler that saw the frames joined can step x>z
+    labs, akind = G.alphabet(rng, k=3)
+    rng.shuffle(labs)
+
+    def part(start, end, n):
+        t, cur = [], start
+        while len(t) < n or cur != end:
+            t.append(labs[cur])
+            if rng.random() < 0.3:
+                cur = (cur + 1) % 3
+        return t + [labs[end]]
+    return [part(1, 0, rng.randint(40, 90)), part(2, 1, rng.randint(40, 90))], labs, akind
+
+
+def gen_junction(rng, tier):
+    for _ in range(4 if tier == 'quick' else 60):
+        trajs, labs, akind = _junction(rng)
+        yield {'trajs': trajs, 'lag': 1, 'S': [labs[0]], 'F': [labs[2]], 'hist': [['call', 'emm'], ['rand', 'msm_wt', rng.randrange(10**6)], ['call', 'emm']],
+               'tau': 2, 'alpha': akind + '+junction', 'dtype': 'int64', 'junction': [labs[0], labs[2]], 'seed': rng.randrange(10**6)}
 
 
 def corpus():
@@ -236,6 +261,26 @@ def impl(case):
         if after != before:
             problems.append('call %s modified an argument: %s' % (name, [k for k in before if before[k] != after[k]]))
         log.append(name)
+    if case.get('junction'):
+        # the same frames, joined into one trajectory, are sampled first; the sampler for the two separate
+        # trajectories must afterwards still never take the step that exists only across the boundary
+        from msmhelper.msm import timescales as ts
+        x, z = case['junction']
+        joined = [np.concatenate(trajs)]
+        for fn in (lambda d, n: ts.propagate_MCMC(d, 1, n), ):
+            _reseed(case['seed'])
+            fn(joined, 50)
+            _reseed(case['seed'])
+            chain = [int(v) for v in fn(trajs, 4000)]
+            Tm, st = mh.msm.estimate_markov_model(trajs, 1)
+            st = [int(v) for v in st]
+            if Tm[st.index(x), st.index(z)] == 0 and any(a == x and b == z for a, b in zip(chain, chain[1:])):
+                problems.append('after sampling the joined frames, propagate_MCMC on the two trajectories takes the step %d>%d '
+                                'that is observed only across their boundary' % (x, z))
+            _reseed(case['seed'])
+            chain2 = [int(v) for v in fn(trajs, 4000)]
+            if chain2 != chain:
+                problems.append('propagate_MCMC is not reproducible from the generator state')
     return {'problems': problems, 'calls': log}
 
 
